@@ -43,6 +43,7 @@ func genStepCase(t *rapid.T, forced []int, limited int) stepCase {
 		c.Cfg.R, c.Cfg.W = m, m
 	}
 	c.Cfg.P = rapid.SampledFrom([]int{1, 2, 3, 8}).Draw(t, "P")
+	c.Cfg.Mode = rapid.IntRange(0, 2).Draw(t, "mode")
 	c.Steps = rapid.IntRange(1, 6).Draw(t, "steps")
 	c.Cfg.Cycles = c.Steps
 	c.PC = rapid.IntRange(0, m-1).Draw(t, "pc")
